@@ -148,3 +148,17 @@ contract(M + "BinaryVariable.validate_n_vars", params=dict(v="int"), returns="in
 contract(M + "EarlyStopping.validate_patience", params=dict(v="opt[int]"), returns="opt[int]",
          raises={"ValueError": "v is not None and v < 1"}, ensures=[("kept", "(result is None) == (v is None) and implies(v is not None, result == v)")],
          properties=["C04", "C06"])
+
+# ---- multi-variables act child-wise, each child with its own rule (C13, C14) -----------------------------------------------
+for cls_ in ("ContinuousMultiVariable", "DiscreteMultiVariable", "MultiObjectiveVariable", "BinaryVariable"):
+    contract(M + cls_ + ".correct", params=dict(value="list[val]"), returns="list[val]",
+             cases=[{"value": "list[val]"}, {"value": "nd[val]"}],
+             requires=["len(value) >= len(self._children)"],
+             ensures=[("one-per-child", "len(result) == len(self._children)"),
+                      ("child-wise", "all(result[i] is Corr(self._children[i], value[i]) for i in range(len(self._children)))"),
+                      ("into-the-domain", "all(implies(not isnanv(value[i]), Dom(self._children[i], result[i])) for i in range(len(self._children)))"),
+                      ("members-unchanged", "all(implies(Dom(self._children[i], value[i]), result[i] is value[i]) for i in range(len(self._children)))"),
+                      ("pure", "heap_unchanged()")],
+             properties=["C13", "C14"])
+    contract(M + cls_ + ".get", returns="list[Variable]",
+             ensures=[("children", "result is self._children")], properties=["C14"])
